@@ -447,6 +447,21 @@ func (c *caseRun) update(sl *slot) (ok bool, log string, built bool) {
 		sl.updates++
 		e.r.Count("updates/valid/"+sl.typ+"/accepted", 1)
 		c.note("update %s (%s) height %v by %s: ok", sl.name, sl.typ, hdr.GetHeight(), signer.Name)
+		// the consensus height announced by the update event is the header's (the height the state was stored under),
+		// also for a header that fills in a height below the client's latest one
+		for _, ev := range res.Events {
+			if sl.typ == tTSS || !strings.HasSuffix(ev.Type, "EventUpdateClient") { // (a TSS header has no height)
+				continue
+			}
+			for _, a := range ev.Attributes {
+				if string(a.Key) == "consensus_height" {
+					e.r.Count("updates/event-consensus-height-compared", 1)
+					if got := strings.Trim(string(a.Value), "\""); got != hdr.GetHeight().String() {
+						c.viol("update/"+sl.typ+"/event-announces-another-consensus-height-than-the-header's", map[string]interface{}{"chain_name": sl.name, "header_height": hdr.GetHeight().String(), "event": got})
+					}
+				}
+			}
+		}
 		if th, ok := hdr.(*tsstypes.Header); ok {
 			// a TSS header IS the new configuration: an update that succeeded has installed all of it
 			got, _ := e.n.App.XIBCKeeper.ClientKeeper.GetClientState(e.n.Ctx(), sl.name)
